@@ -270,8 +270,10 @@ def pipelineKeyOld (parentTruthy : Bool) (parentStr name : String) : String :=
 
 /-! ### `pypyr.moduleloader.add_sys_path`
 
-      if path in _known_dirs: return                  -- spIdle → (done | spExists)
-      if not path_obj.exists(): _known_dirs.add(path); return   -- spExists → (done | spWant)
+      if path in _known_dirs and path not in _missing_dirs: return   -- spIdle → (done | spExists)
+      if not path_obj.exists():                       -- spExists → (done | spWant)
+          _known_dirs.add(path); _missing_dirs.add(path); return
+      _missing_dirs.discard(path)
       with _sys_path_lock:                            -- spWant → spLocked
           if path_str not in sys.path:                -- spLocked → spAppend | spRelease
               sys.path.append(path_str)               -- spAppend → spRelease
@@ -294,6 +296,8 @@ structure SpState where
   lock : Option Tid
   sysPath : List Nat
   known : List Nat
+  /-- `_missing_dirs`: the known paths that did not exist when last looked at -/
+  missing : List Nat := []
 
 def SpState.setThread (st : SpState) (t : Tid) (th : SpThread) : SpState :=
   { st with threads := fun u => if u = t then th else st.threads u }
@@ -306,11 +310,11 @@ def spStep (ex : Nat → Bool) (st : SpState) (t : Tid) : SpState :=
     match th.ops with
     | [] => st
     | p :: rest =>
-      if p ∈ st.known then st.setThread t { th with ops := rest }
+      if p ∈ st.known ∧ p ∉ st.missing then st.setThread t { th with ops := rest }
       else st.setThread t { ops := rest, pc := .spExists p }
   | .spExists p =>
-    if ex p then st.setThread t { th with pc := .spWant p }
-    else { st.setThread t { th with pc := .spIdle } with known := p :: st.known }
+    if ex p then { st.setThread t { th with pc := .spWant p } with missing := st.missing.filter (· ≠ p) }
+    else { st.setThread t { th with pc := .spIdle } with known := p :: st.known, missing := p :: st.missing }
   | .spWant p =>
     match st.lock with
     | some _ => st
@@ -327,7 +331,7 @@ def spRun (ex : Nat → Bool) (st : SpState) : List Tid → SpState
   | t :: ts => spRun ex (spStep ex st t) ts
 
 def spInit (sysPath : List Nat) (prog : Tid → List Nat) : SpState :=
-  { threads := fun t => { ops := prog t, pc := .spIdle }, lock := none, sysPath := sysPath, known := [] }
+  { threads := fun t => { ops := prog t, pc := .spIdle }, lock := none, sysPath := sysPath, known := [], missing := [] }
 
 /-- places where the harness can park a thread inside `add_sys_path`: before the call, in
     `_sys_path_lock.__enter__`, in `_sys_path_lock.__exit__` -/
@@ -357,5 +361,227 @@ def spFinish (ex : Nat → Bool) (n : Nat) : Nat → SpState → SpState
     match (List.range n).find? (spEnabled st) with
     | none => st
     | some t => spFinish ex n fuel (spTurn ex st t)
+
+/-! ### The layers above the caches: clients that hold on to cached objects
+
+`pypyr.pipeline.Pipeline.load_and_run_pipeline` (one *client* object, possibly run many times):
+
+      loader_instance = loader_cache.get_pype_loader(self.loader)      -- LoaderCache: name → Loader object
+      self.pipeline_definition = loader_instance.get_pipeline(         -- Loader._pipeline_cache:
+          name=self.name, parent=parent)                               --   pipelineKey → definition
+      … StepsRunner(self.pipeline_definition.pipeline …) → step_cache.get_step(name) per step
+
+  the file loader's `get_pipeline_definition`: `get_pipeline_path` (a pure look-up in the file
+  system as it is NOW) then `file_cache.get(str(path), load_pipeline_from_file)`; a custom
+  loader's `get_pipeline_definition(name, parent)` is any function of the request and the world.
+
+  Sequential (one thread; the interleavings of each single cache are the transition system above).
+  A `Loader` object owns its pipeline cache, so Loader objects have identities (`nextObj`) and a
+  table dropped from `LoaderCache` is a *different* object from the one created next. The client's
+  `pipeline_definition` slot is part of the state: it is written by every successful run and —
+  in pypyr as it is — never read before it is written (`run_ignores_slots`).
+
+  Content is abstracted to a version number: the pipeline that runs announces which version of
+  which source it was made from. -/
+namespace Stack
+
+abbrev Ver := Nat
+
+/-- a request as `Loader.get_pipeline` sees it: `bool(parent)`, `str(parent)`, the name -/
+structure Rq where
+  pt : Bool
+  ps : String
+  name : String
+  deriving DecidableEq, Repr, Inhabited
+
+def Rq.key (r : Rq) : PKey := pipelineKey r.pt r.ps r.name
+
+/-- the world outside the caches at one moment -/
+structure World where
+  /-- file loader: the file the request resolves to NOW (`none`: `PipelineNotFoundError`) -/
+  resolve : Rq → Option Nat
+  /-- version of the content of that file NOW -/
+  fileVer : Nat → Ver
+  /-- custom loader `l ≥ 1`: what its `get_pipeline_definition` returns NOW (`none`: it raises) -/
+  custom : Nat → Rq → Option Ver
+
+/-- what an uncached look-up by loader `l` (0 = the file loader) yields now -/
+def World.fresh (w : World) (l : Nat) (r : Rq) : Option Ver :=
+  if l = 0 then (w.resolve r).map w.fileVer else w.custom l r
+
+structure LState where
+  /-- `config.no_cache` -/
+  noCache : Bool
+  /-- `loader_cache._cache`: loader name → Loader object -/
+  loaders : Nat → Option Nat
+  /-- `Loader._pipeline_cache` of every Loader object ever made -/
+  pipes : Nat → PKey → Option Ver
+  /-- `file_cache._cache`: path → parsed definition -/
+  files : Nat → Option Ver
+  /-- `step_cache` holds the step the pipelines use -/
+  stepCached : Bool
+  /-- number of Loader objects made so far -/
+  nextObj : Nat
+  /-- `Loader.name` of every Loader object made so far -/
+  owner : Nat → Nat
+  /-- `Pipeline.pipeline_definition` of every client object -/
+  slot : Nat → Option Ver
+
+def LState.init : LState :=
+  { noCache := false, loaders := fun _ => none, pipes := fun _ _ => none, files := fun _ => none,
+    stepCached := false, nextObj := 0, owner := fun _ => 0, slot := fun _ => none }
+
+/-- what one `Pipeline.run` shows to the outside -/
+structure Obs where
+  /-- version of the pipeline that ran; `none` = the look-up raised -/
+  ran : Option Ver
+  /-- `load_the_loader` was called -/
+  loaderMade : Bool
+  /-- the loader's `get_pipeline_definition` was called -/
+  defMade : Bool
+  /-- `load_pipeline_from_file` was called -/
+  fileRead : Bool
+  /-- `load_the_step` was called -/
+  stepMade : Bool
+  deriving DecidableEq, Repr, Inhabited
+
+/-- `LoaderCache.get_pype_loader` → (Loader object, was it created now, state) -/
+def getLoader (st : LState) (l : Nat) : Nat × Bool × LState :=
+  if st.noCache then
+    (st.nextObj, true, { st with nextObj := st.nextObj + 1,
+                                 owner := fun o => if o = st.nextObj then l else st.owner o })
+  else match st.loaders l with
+    | some o => (o, false, st)
+    | none => (st.nextObj, true,
+        { st with loaders := fun l' => if l' = l then some st.nextObj else st.loaders l',
+                  nextObj := st.nextObj + 1,
+                  owner := fun o => if o = st.nextObj then l else st.owner o })
+
+/-- the loader's `get_pipeline_definition` → (definition, was a file parsed, state) -/
+def loadDef (w : World) (st : LState) (l : Nat) (r : Rq) : Option Ver × Bool × LState :=
+  if l = 0 then
+    match w.resolve r with
+    | none => (none, false, st)
+    | some p =>
+      if st.noCache then (some (w.fileVer p), true, st)
+      else match st.files p with
+        | some v => (some v, false, st)
+        | none => (some (w.fileVer p), true,
+            { st with files := fun p' => if p' = p then some (w.fileVer p) else st.files p' })
+  else (w.custom l r, false, st)
+
+/-- `Loader.get_pipeline` on Loader object `o` → (definition, defMade, fileRead, state) -/
+def getPipeline (w : World) (st : LState) (o l : Nat) (r : Rq) : Option Ver × Bool × Bool × LState :=
+  if st.noCache then
+    ((loadDef w st l r).1, true, (loadDef w st l r).2.1, (loadDef w st l r).2.2)
+  else match st.pipes o r.key with
+    | some v => (some v, false, false, st)
+    | none =>
+      match (loadDef w st l r).1 with
+      | some x => (some x, true, (loadDef w st l r).2.1,
+          { (loadDef w st l r).2.2 with
+            pipes := fun o' k => if o' = o ∧ k = r.key then some x else (loadDef w st l r).2.2.pipes o' k })
+      | none => (none, true, (loadDef w st l r).2.1, (loadDef w st l r).2.2)
+
+/-- `step_cache.get_step` for the step of the pipeline that runs -/
+def getStep (st : LState) : Bool × LState :=
+  if st.noCache then (true, st)
+  else if st.stepCached then (false, st) else (true, { st with stepCached := true })
+
+/-- `Pipeline.load_and_run_pipeline(context, parent)` on client object `c`, whose `loader` is `l`
+    and whose `name`/this call's `parent` make up `r`. -/
+def run (w : World) (st : LState) (c l : Nat) (r : Rq) : Obs × LState :=
+  let gl := getLoader st l
+  let gp := getPipeline w gl.2.2 gl.1 l r
+  match gp.1 with
+  | none => ({ ran := none, loaderMade := gl.2.1, defMade := gp.2.1, fileRead := gp.2.2.1, stepMade := false },
+             gp.2.2.2)
+  | some x =>
+    let st3 : LState := { gp.2.2.2 with slot := fun c' => if c' = c then some x else gp.2.2.2.slot c' }
+    ({ ran := some x, loaderMade := gl.2.1, defMade := gp.2.1, fileRead := gp.2.2.1,
+       stepMade := (getStep st3).1 }, (getStep st3).2)
+
+/-- the operations of a session -/
+inductive LOp where
+  /-- client `c` (a Pipeline object for loader `l`) is run with request `r` -/
+  | run (c l : Nat) (r : Rq)
+  /-- the world changes: sources are edited, files appear or disappear -/
+  | world (w : World)
+  /-- `pypyr.cache.admin.clear_all()` -/
+  | clearAll
+  /-- `loader_cache.clear()` -/
+  | clearLoaders
+  /-- `loader_cache.clear_pipes(l)` / `Loader.clear()` of the cached Loader; `none` = all loaders -/
+  | clearPipes (l : Option Nat)
+  /-- `file_cache.clear()` -/
+  | clearFiles
+  /-- `step_cache.clear()` -/
+  | clearSteps
+  /-- `config.no_cache = b` -/
+  | setNoCache (b : Bool)
+
+def clearPipesOf (st : LState) (l : Nat) : LState :=
+  match st.loaders l with
+  | some o => { st with pipes := fun o' k => if o' = o then none else st.pipes o' k }
+  | none => st
+
+/-- one operation; runs also yield an observation -/
+def exec (w : World) (st : LState) : LOp → World × LState × Option Obs
+  | .run c l r => (w, (run w st c l r).2, some (run w st c l r).1)
+  | .world w' => (w', st, none)
+  | .clearAll => (w, { st with loaders := fun _ => none, files := fun _ => none, stepCached := false }, none)
+  | .clearLoaders => (w, { st with loaders := fun _ => none }, none)
+  | .clearPipes (some l) => (w, clearPipesOf st l, none)
+  | .clearPipes none =>
+    (w, { st with pipes := fun o k => if st.loaders (st.owner o) = some o then none else st.pipes o k }, none)
+  | .clearFiles => (w, { st with files := fun _ => none }, none)
+  | .clearSteps => (w, { st with stepCached := false }, none)
+  | .setNoCache b => (w, { st with noCache := b }, none)
+
+/-- NOT pypyr: a client that re-uses the definition it holds from an earlier run. The model can
+    express it; the freshness theorem fails for it (`Props/C13.lean`, `retaining_client_breaks_clear`). -/
+def runRetaining (w : World) (st : LState) (c l : Nat) (r : Rq) : Obs × LState :=
+  match st.slot c with
+  | some v => ({ ran := some v, loaderMade := false, defMade := false, fileRead := false,
+                 stepMade := (getStep st).1 }, (getStep st).2)
+  | none => run w st c l r
+
+/-- Ghost bookkeeping for the property statement: which layers MAY hold something made from a
+    world that is gone. `files` = `file_cache`; `pipes l` = the pipeline cache of loader `l`'s
+    current Loader object. Any change of the world may stale everything; each clear cleans exactly
+    the layer it empties; a file-loader run while `file_cache` may be stale copies the staleness
+    into the file loader's pipeline cache. -/
+structure Flags where
+  files : Bool
+  pipes : Nat → Bool
+
+def Flags.none : Flags := { files := false, pipes := fun _ => false }
+
+/-- a run of loader `l` goes only through clean layers -/
+def Flags.clean (f : Flags) (l : Nat) : Bool := !f.pipes l && (l != 0 || !f.files)
+
+def Flags.step (f : Flags) : LOp → Flags
+  | .run _ l _ =>
+    if l = 0 ∧ f.files = true then { f with pipes := fun l' => if l' = 0 then true else f.pipes l' } else f
+  | .world _ => { files := true, pipes := fun _ => true }
+  | .clearAll => { files := false, pipes := fun _ => false }
+  | .clearLoaders => { f with pipes := fun _ => false }
+  | .clearPipes (some l) => { f with pipes := fun l' => if l' = l then false else f.pipes l' }
+  | .clearPipes Option.none => { f with pipes := fun _ => false }
+  | .clearFiles => { f with files := false }
+  | .clearSteps => f
+  | .setNoCache _ => f
+
+/-- a whole session: the observation of every run together with "did it go through clean layers
+    only (or with no_cache)" and what an uncached look-up would have yielded at that moment -/
+def session (w : World) (st : LState) (f : Flags) : List LOp → List (Obs × Bool × Option Ver)
+  | [] => []
+  | op :: ops =>
+    let rest := session (exec w st op).1 (exec w st op).2.1 (f.step op) ops
+    match op with
+    | .run c l r => ((run w st c l r).1, (f.clean l || st.noCache), w.fresh l r) :: rest
+    | _ => rest
+
+end Stack
 
 end Pypyr.CacheTS
